@@ -80,10 +80,32 @@ def real_run(k, n, order, verbose, lines, dots):
         res["initial"] = sum(e.is_set() for e in started)
         time.sleep(0.03)
         res["initial_after_wait"] = sum(e.is_set() for e in started)
+        # progress after every completion: a slot that becomes free is used for the next waiting layer
+        # (simulation of which children must have been started by now; a child released before it was
+        # started finishes as soon as it starts and frees its slot again)
+        sim_running = list(range(min(n, k)))
+        sim_ready = list(range(min(n, k), k))
+        released = set()
+        res["progress"] = []
         for i in order:
-            # a child that has not been started yet (no free slot) finishes as soon as it starts
             gates[i].set()
-            time.sleep(0.03)
+            released.add(i)
+            changed = True
+            while changed:
+                changed = False
+                for x in list(sim_running):
+                    if x in released:
+                        sim_running.remove(x)
+                        changed = True
+                while len(sim_running) < n and sim_ready:
+                    sim_running.append(sim_ready.pop(0))
+                    changed = True
+            expect_started = k - len(sim_ready)
+            deadline = time.time() + 1.5
+            while sum(e.is_set() for e in started) < expect_started and time.time() < deadline and t.is_alive():
+                time.sleep(0.005)
+            res["progress"].append([i, expect_started, sum(e.is_set() for e in started)])
+            time.sleep(0.02)
         t.join(20)
         res["hung"] = t.is_alive()
     finally:
@@ -154,7 +176,7 @@ def run(ctx):
                                 for c in full])
     for (k, n, order, verbose, lines, dots), res, ans in zip(full, reals, answers):
         case = {"k": k, "N": n, "finish_order": order, "verbose": verbose, "lines": lines, "dots": dots,
-                "real": {kk: res.get(kk) for kk in ("total", "max", "initial", "hung", "exc", "start_order")},
+                "real": {kk: res.get(kk) for kk in ("total", "max", "initial", "hung", "exc", "start_order", "progress")},
                 "stdout": res.get("stdout", "")[-800:], "model": ans}
         ctx.count((k, n, tuple(order), verbose, dots), nontrivial=k >= 2 and order != sorted(order),
                   sample={"k": k, "N": n, "finish_order": order, "max_alive": res.get("max")})
@@ -170,6 +192,12 @@ def run(ctx):
         if res["initial_after_wait"] != min(n, k):
             ctx.violation("%d children started at once, expected min(N, k) = %d" % (res["initial_after_wait"], min(n, k)),
                           case, signature="C06:progress")
+            continue
+        stuck = [p for p in res.get("progress", []) if p[2] < p[1]]
+        if stuck:
+            ctx.violation("after child %d finished only %d children had been started, %d expected: a free slot stays "
+                          "unused while layers wait (-j %d, finish order %r)" % (stuck[0][0], stuck[0][2], stuck[0][1], n, order),
+                          case, signature="C06:slot-unused")
             continue
         # blocks: the LINE lines must appear grouped per child, in layer order, complete
         got = [(int(a), int(b)) for a, b in re.findall(r"LINE (\d+) (\d+)", res["stdout"])]
